@@ -57,51 +57,84 @@ Base(bs, dom, x, y) == CASE bs = "eq" -> EqM(dom, x, y)
                          [] bs = "ord" -> CmpM(dom, x, y)
                          [] bs = "rel" -> Less(dom, x, y)
                          [] bs = "rev" -> 0 - CmpM(dom, x, y)
-\* projections: len: str -> num;  tab: int -> str (a non-monotone walk through the table);  flip: int -> int (order reversing)
+\* projections: len: str -> num;  tab: int -> str (a non-monotone walk through the table);  flip: int -> int (order
+\* reversing);  rot: int -> int (a permutation of the table that does not commute with flip: checked in AlgebraMC)
 Proj(p, v) == CASE p = "len" -> Len(v)
                 [] p = "tab" -> FullStrTab[((v * 7) % Len(FullStrTab)) + 1]
                 [] p = "flip" -> NInt + 1 - v
+                [] p = "rot" -> ((v * 3) % NInt) + 1
+\* a ContraMap over a base that is itself a ContraMap: ps = <<outer, inner>>; the outer projection is applied first
+RECURSIVE ProjAll(_, _)
+ProjAll(ps, v) == IF ps = <<>> THEN v ELSE ProjAll(Tail(ps), Proj(Head(ps), v))
 \* operations, non-commutative
 Op(o, x, y) == CASE o = "concat" -> x \o y [] o = "sub" -> x - y
+\* constructors handed something that already implements the richer interface (a Monoid as the Semigroup of monoid.From,
+\* a Monoid's Combine as the function of FromOp): the inner monoid has its own, DIFFERENT empty element
+InnerEmpty(dom, e) == IF dom = "str" THEN e \o <<33>> ELSE e + 100
 
 D7(cls, dom, base, proj, pdom, logged, op) ==
   [cls |-> cls, dom |-> dom, base |-> base, proj |-> proj, pdom |-> pdom, logged |-> logged, op |-> op]
 InstTab ==
-     "eq.Int"                       :> D7("plain", "int", "eq", "none", "int", FALSE, "none")
-  @@ "eq.String"                    :> D7("plain", "str", "eq", "none", "str", FALSE, "none")
-  @@ "ord.Int"                      :> D7("plain", "int", "ord", "none", "int", FALSE, "none")
-  @@ "ord.String"                   :> D7("plain", "str", "ord", "none", "str", FALSE, "none")
-  @@ "eq.From/int"                  :> D7("from", "int", "rel", "none", "int", TRUE, "none")
-  @@ "eq.From/str"                  :> D7("from", "str", "rel", "none", "str", TRUE, "none")
-  @@ "ord.From/int"                 :> D7("from", "int", "rev", "none", "int", TRUE, "none")
-  @@ "ord.From/str"                 :> D7("from", "str", "rev", "none", "str", TRUE, "none")
-  @@ "eq.ContraMap/len/eq.Int"      :> D7("contramap", "str", "eq", "len", "num", FALSE, "none")
-  @@ "eq.ContraMap/len/rel"         :> D7("contramap", "str", "rel", "len", "num", TRUE, "none")
-  @@ "ord.ContraMap/len/ord.Int"    :> D7("contramap", "str", "ord", "len", "num", FALSE, "none")
-  @@ "ord.ContraMap/len/rev"        :> D7("contramap", "str", "rev", "len", "num", TRUE, "none")
-  @@ "eq.ContraMap/tab/eq.String"   :> D7("contramap", "int", "eq", "tab", "str", FALSE, "none")
-  @@ "ord.ContraMap/tab/ord.String" :> D7("contramap", "int", "ord", "tab", "str", FALSE, "none")
-  @@ "ord.ContraMap/flip/ord.Int"   :> D7("contramap", "int", "ord", "flip", "int", FALSE, "none")
-  @@ "eq.ContraMap/flip/rel"        :> D7("contramap", "int", "rel", "flip", "int", TRUE, "none")
-  @@ "semigroup.From/concat"        :> D7("semigroup", "str", "none", "none", "str", TRUE, "concat")
-  @@ "semigroup.From/sub"           :> D7("semigroup", "num", "none", "none", "num", TRUE, "sub")
-  @@ "monoid.FromOp/concat"         :> D7("monoid", "str", "none", "none", "str", TRUE, "concat")
-  @@ "monoid.FromOp/sub"            :> D7("monoid", "num", "none", "none", "num", TRUE, "sub")
-  @@ "monoid.From/concat"           :> D7("monoid", "str", "none", "none", "str", TRUE, "concat")
-  @@ "monoid.From/sub"              :> D7("monoid", "num", "none", "none", "num", TRUE, "sub")
+     "eq.Int"                       :> D7("plain", "int", "eq", <<>>, "int", FALSE, "none")
+  @@ "eq.String"                    :> D7("plain", "str", "eq", <<>>, "str", FALSE, "none")
+  @@ "ord.Int"                      :> D7("plain", "int", "ord", <<>>, "int", FALSE, "none")
+  @@ "ord.String"                   :> D7("plain", "str", "ord", <<>>, "str", FALSE, "none")
+  @@ "eq.From/int"                  :> D7("from", "int", "rel", <<>>, "int", TRUE, "none")
+  @@ "eq.From/str"                  :> D7("from", "str", "rel", <<>>, "str", TRUE, "none")
+  @@ "ord.From/int"                 :> D7("from", "int", "rev", <<>>, "int", TRUE, "none")
+  @@ "ord.From/str"                 :> D7("from", "str", "rev", <<>>, "str", TRUE, "none")
+     \* From wrapping the method values of the built-in instances
+  @@ "eq.From/eq.Int.Equal"         :> D7("from", "int", "eq", <<>>, "int", FALSE, "none")
+  @@ "eq.From/eq.String.Equal"      :> D7("from", "str", "eq", <<>>, "str", FALSE, "none")
+  @@ "ord.From/ord.Int.Compare"     :> D7("from", "int", "ord", <<>>, "int", FALSE, "none")
+  @@ "ord.From/ord.String.Compare"  :> D7("from", "str", "ord", <<>>, "str", FALSE, "none")
+  @@ "eq.ContraMap/len/eq.Int"      :> D7("contramap", "str", "eq", <<"len">>, "num", FALSE, "none")
+  @@ "eq.ContraMap/len/rel"         :> D7("contramap", "str", "rel", <<"len">>, "num", TRUE, "none")
+  @@ "ord.ContraMap/len/ord.Int"    :> D7("contramap", "str", "ord", <<"len">>, "num", FALSE, "none")
+  @@ "ord.ContraMap/len/rev"        :> D7("contramap", "str", "rev", <<"len">>, "num", TRUE, "none")
+  @@ "eq.ContraMap/tab/eq.String"   :> D7("contramap", "int", "eq", <<"tab">>, "str", FALSE, "none")
+  @@ "ord.ContraMap/tab/ord.String" :> D7("contramap", "int", "ord", <<"tab">>, "str", FALSE, "none")
+  @@ "ord.ContraMap/flip/ord.Int"   :> D7("contramap", "int", "ord", <<"flip">>, "int", FALSE, "none")
+  @@ "eq.ContraMap/flip/rel"        :> D7("contramap", "int", "rel", <<"flip">>, "int", TRUE, "none")
+     \* two levels: the base of the ContraMap is itself a ContraMap (outer projection first)
+  @@ "ord.ContraMap/rot/ord.ContraMap/flip/ord.Int" :> D7("contramap", "int", "ord", <<"rot", "flip">>, "int", FALSE, "none")
+  @@ "ord.ContraMap/flip/ord.ContraMap/rot/rev"     :> D7("contramap", "int", "rev", <<"flip", "rot">>, "int", TRUE, "none")
+  @@ "eq.ContraMap/rot/eq.ContraMap/flip/rel"       :> D7("contramap", "int", "rel", <<"rot", "flip">>, "int", TRUE, "none")
+  @@ "eq.ContraMap/tab/eq.ContraMap/len/eq.Int"     :> D7("contramap", "int", "eq", <<"tab", "len">>, "num", FALSE, "none")
+  @@ "ord.ContraMap/tab/ord.ContraMap/len/rev"      :> D7("contramap", "int", "rev", <<"tab", "len">>, "num", TRUE, "none")
+  @@ "semigroup.From/concat"        :> D7("semigroup", "str", "none", <<>>, "str", TRUE, "concat")
+  @@ "semigroup.From/sub"           :> D7("semigroup", "num", "none", <<>>, "num", TRUE, "sub")
+     \* semigroup.From given functions of other provenance: method values of a Monoid, of a Semigroup, of a struct; a top-level function
+  @@ "semigroup.From/monoid.Combine/concat"    :> D7("semigroup", "str", "none", <<>>, "str", TRUE, "concat")
+  @@ "semigroup.From/semigroup.Combine/sub"    :> D7("semigroup", "num", "none", <<>>, "num", TRUE, "sub")
+  @@ "semigroup.From/struct.Combine/concat"    :> D7("semigroup", "str", "none", <<>>, "str", TRUE, "concat")
+  @@ "semigroup.From/func/sub"                 :> D7("semigroup", "num", "none", <<>>, "num", TRUE, "sub")
+  @@ "monoid.FromOp/concat"         :> D7("monoid", "str", "none", <<>>, "str", TRUE, "concat")
+  @@ "monoid.FromOp/sub"            :> D7("monoid", "num", "none", <<>>, "num", TRUE, "sub")
+  @@ "monoid.From/concat"           :> D7("monoid", "str", "none", <<>>, "str", TRUE, "concat")
+  @@ "monoid.From/sub"              :> D7("monoid", "num", "none", <<>>, "num", TRUE, "sub")
+     \* the Semigroup / function given to the constructor belongs to a Monoid with another empty element (Nested)
+  @@ "monoid.From/monoid.FromOp/concat"    :> D7("monoid", "str", "none", <<>>, "str", TRUE, "concat")
+  @@ "monoid.From/monoid.FromOp/sub"       :> D7("monoid", "num", "none", <<>>, "num", TRUE, "sub")
+  @@ "monoid.From/monoid.From/concat"      :> D7("monoid", "str", "none", <<>>, "str", TRUE, "concat")
+  @@ "monoid.From/monoid.From/sub"         :> D7("monoid", "num", "none", <<>>, "num", TRUE, "sub")
+  @@ "monoid.FromOp/monoid.Combine/concat" :> D7("monoid", "str", "none", <<>>, "str", TRUE, "concat")
+  @@ "monoid.FromOp/monoid.Combine/sub"    :> D7("monoid", "num", "none", <<>>, "num", TRUE, "sub")
 Insts == DOMAIN InstTab
+Nested == {"monoid.From/monoid.FromOp/concat", "monoid.From/monoid.FromOp/sub", "monoid.From/monoid.From/concat",
+           "monoid.From/monoid.From/sub", "monoid.FromOp/monoid.Combine/concat", "monoid.FromOp/monoid.Combine/sub"}
 
 (* ------------------------------------------------------------------ P: promised result of one call, instance d on (a, b) *)
 ExpRes(d, a, b) ==
   CASE d.cls \in {"plain", "from"} -> Base(d.base, d.dom, a, b)
-    [] d.cls = "contramap" -> Base(d.base, d.pdom, Proj(d.proj, a), Proj(d.proj, b))
+    [] d.cls = "contramap" -> Base(d.base, d.pdom, ProjAll(d.proj, a), ProjAll(d.proj, b))
     [] d.cls \in {"semigroup", "monoid"} -> Op(d.op, a, b)
 
 Call(w, args, res) == [which |-> w, args |-> args, res |-> res]
 \* the call of the wrapped function / logging base / operation that the result must come from
 Wrapped(d, a, b) ==
   CASE d.cls = "from" -> Call("f", <<a, b>>, ExpRes(d, a, b))
-    [] d.cls = "contramap" -> Call("base", <<Proj(d.proj, a), Proj(d.proj, b)>>, ExpRes(d, a, b))
+    [] d.cls = "contramap" -> Call("base", <<ProjAll(d.proj, a), ProjAll(d.proj, b)>>, ExpRes(d, a, b))
     [] d.cls \in {"semigroup", "monoid"} -> Call("op", <<a, b>>, ExpRes(d, a, b))
 \* P: some logged call is the wrapped function on the arguments in order, and its result is what the instance returned
 Delegated(d, a, b, res, calls) ==
@@ -111,9 +144,15 @@ Delegated(d, a, b, res, calls) ==
                  /\ calls[j].res = res
 
 (* ------------------------------------------------------------------ I: the exact inner call sequence of the code *)
+\* level l of a ContraMap projects both arguments (a first), then delegates to its base: "proj", "proj2"
+ProjName(l) == IF l = 1 THEN "proj" ELSE "proj2"
+RECURSIVE ProjCalls(_, _, _, _)
+ProjCalls(ps, l, x, y) ==
+  IF ps = <<>> THEN <<>>
+  ELSE <<Call(ProjName(l), <<x>>, Proj(Head(ps), x)), Call(ProjName(l), <<y>>, Proj(Head(ps), y))>>
+       \o ProjCalls(Tail(ps), l + 1, Proj(Head(ps), x), Proj(Head(ps), y))
 ExpCalls(d, a, b) ==
   CASE d.cls = "plain" -> <<>>
-    [] d.cls = "contramap" -> <<Call("proj", <<a>>, Proj(d.proj, a)), Call("proj", <<b>>, Proj(d.proj, b))>>
-                              \o (IF d.logged THEN <<Wrapped(d, a, b)>> ELSE <<>>)
-    [] OTHER -> <<Wrapped(d, a, b)>>
+    [] d.cls = "contramap" -> ProjCalls(d.proj, 1, a, b) \o (IF d.logged THEN <<Wrapped(d, a, b)>> ELSE <<>>)
+    [] OTHER -> IF d.logged THEN <<Wrapped(d, a, b)>> ELSE <<>>
 ====
